@@ -6,27 +6,23 @@ OUT=seeded/RESULTS.md
 [ "$1" = all ] && OUT=seeded/RESULTS_ALL.md
 echo "| seeded change | breaks | check | verdict | decided by | failing obligation / counterexample |" > $OUT.tmp
 echo "|---|---|---|---|---|---|" >> $OUT.tmp
-for d in seeded/*/; do
-  n=$(basename $d)
-  [ -f $d/patch.diff ] || continue
-  if [ -n "$SEEDS" ]; then case " $SEEDS " in *" $n "*) ;; *) continue;; esac; fi
+ROWS=$(mktemp -d /var/tmp/rows-XXXXXX)
+one_seed() {
+  d=$1; n=$(basename $d)
   p=$(python3 -c "import json;print(json.load(open('$d/meta.json'))['breaks_property'])")
   props=$p
-  [ "$1" = all ] && props="C01 C02 C03 C04 C05 C06 C07 C08 C10 C11 C12 C13 C14 C15 C16 C17"
+  [ "$MODE" = all ] && props="C01 C02 C03 C04 C05 C06 C07 C08 C10 C11 C12 C13 C14 C15 C16 C17"
   D=$(mktemp -d /var/tmp/tp-XXXXXX)
   mkdir -p $D/embedded-cli $D/embedded-cli-macros
   cp -r /repo/embedded-cli/src $D/embedded-cli/src; cp -r /repo/embedded-cli-macros/src $D/embedded-cli-macros/src
-  if ! (cd $D && patch -s -p1 < /verif/$d/patch.diff); then echo "| $n | $p | - | patch does not apply | | |" >> $OUT.tmp; rm -rf $D; continue; fi
+  if ! (cd $D && patch -s -p1 < /verif/$d/patch.diff); then echo "| $n | $p | - | patch does not apply | | |" > $ROWS/$n.row; rm -rf $D; return; fi
   for q in $props; do
     grep -q "\"$q\"" MANIFEST.json || continue
-    VERIF_REPO_SRC=$D/embedded-cli/src bin/check $q 2>/dev/null > $D/out-$q.txt &
-    [ "$1" = all ] || wait
-    while [ $(jobs -r | wc -l) -ge 6 ]; do sleep 2; done
+    VERIF_REPO_SRC=$D/embedded-cli/src bin/check $q 2>/dev/null > $D/out-$q.txt
   done
-  wait
   for q in $props; do
     [ -f $D/out-$q.txt ] || continue
-    python3 - "$n" "$p" "$q" $D/out-$q.txt >> $OUT.tmp <<'PY'
+    python3 - "$n" "$p" "$q" $D/out-$q.txt >> $ROWS/$n.row <<'PY'
 import sys,re
 n,p,q,f=sys.argv[1:5]
 t=open(f).read()
@@ -55,6 +51,18 @@ print('| %s | %s | %s | %s | %s | %s |' % (n,p,q,verdict,by,what.replace('|','\\
 PY
   done
   rm -rf $D
+}
+MODE=$1
+PAR=${PAR:-5}
+for d in seeded/*/; do
+  n=$(basename $d)
+  [ -f $d/patch.diff ] || continue
+  if [ -n "$SEEDS" ]; then case " $SEEDS " in *" $n "*) ;; *) continue;; esac; fi
+  one_seed $d &
+  while [ $(jobs -r | wc -l) -ge $PAR ]; do sleep 2; done
 done
+wait
+for d in seeded/*/; do n=$(basename $d); [ -f $ROWS/$n.row ] && cat $ROWS/$n.row >> $OUT.tmp; done
+rm -rf $ROWS
 mv $OUT.tmp $OUT
 cat $OUT
